@@ -117,6 +117,18 @@ fn small_problem(rng: &mut Rng, tiny: bool) -> Problem {
     if rng.bool(0.1) {
         p.P = clarabel::algebra::CscMatrix::zeros((p.n(), p.n()));
     }
+    // explicitly stored zeros (placeholders for entries to be filled in later by update_A / update_P): part of the
+    // problem's sparsity pattern, which a saved file has to reproduce
+    if rng.bool(0.3) {
+        for vals in [&mut p.A.nzval, &mut p.P.nzval] {
+            if !vals.is_empty() {
+                for _ in 0..rng.usize(1, 3) {
+                    let k = rng.usize(0, vals.len() - 1);
+                    vals[k] = 0.0;
+                }
+            }
+        }
+    }
     p
 }
 
